@@ -42,3 +42,4 @@ MUTANTS += [
     dict(name="error-message-decoded-strictly", file="core/http_transport.py", expect="R6.5", old="message=response.text", new="message=response.content.decode()"),
 ]
 MUTANTS.append(dict(name="component-responses-parsed-once-per-name", file='core/loader/operations/parser.py', expect='R6.7', old='                        resp_node_resolved = raw_responses.get(ref_name, {}) or rn_node\n', new='                        if ref_name not in shared_responses:\n                            shared_responses[ref_name] = parse_response(\n                                str(sc),\n                                raw_responses.get(ref_name, {}) or rn_node,\n                                context,\n                                operation_id_for_promo=operation_id,\n                            )\n                        resps.append(shared_responses[ref_name])\n                        continue\n', also=('    ops: List[IROperation] = []\n', '    ops: List[IROperation] = []\n    shared_responses: dict = {}\n')))
+MUTANTS.append(dict(name='server-error-import-conditional', file='visit/exception_visitor.py', expect='R6.9', old='        context.add_import(f"{context.core_package_name}.exceptions", "ServerError")\n', new='        if spec.operations:\n            context.add_import(f"{context.core_package_name}.exceptions", "ServerError")\n'))
